@@ -77,6 +77,11 @@ def run_case(c, work):
             if k == key:
                 ref_err = type(ex).__name__
     ref = refs[key]
+    # a function two function scopes deep answers to its reference string too (not part of the histories)
+    try:
+        deep_ok = select(refstring(M.deep2) + " > v").element.name is M.deep2
+    except Exception:
+        deep_ok = False
     back = {id(f): k for k, f in FN.items()}
     probes, recv = {}, {}
     steps = []
@@ -110,6 +115,11 @@ def run_case(c, work):
             elif op[0] == "resolve":
                 got = select(ref + " > v").element.name
                 same = got is fn
+                if key not in WAYPOINTS and key != "make":
+                    # the other symbols of a selector that starts with a reference are resolved where it is written: a local name
+                    from ptera import tag as _tag
+                    loc_only_here = _tag.Zed
+                    same = same and select(ref + " > v:loc_only_here").element.name is fn
                 # ... and every other function of the module still answers to its own reference
                 for k, rf in refs.items():
                     try:
@@ -129,7 +139,7 @@ def run_case(c, work):
     # probing must not leave anything behind in the function's module (ptera's own __ptera* helpers excepted)
     stray = sorted(str(k) for k in vars(M) if k not in base and not str(k).startswith(("__ptera", "_ptera__")))
     sys.modules.pop(name, None)
-    return {"id": c["id"], "place": c["place"], "key": key, "inplace": bool(c.get("inplace")), "ref": ref, "ref_err": ref_err, "off": off, "steps": steps, "stray": stray}
+    return {"id": c["id"], "place": c["place"], "key": key, "inplace": bool(c.get("inplace")), "deep_ok": deep_ok, "ref": ref, "ref_err": ref_err, "off": off, "steps": steps, "stray": stray}
 
 
 def main():
